@@ -19,22 +19,24 @@
 (* TLC checks, for every member set over Sigma within the bounds and every *)
 (* pattern: the IDs are a bijection between 1..n and the members (locate   *)
 (* and extract are inverse, absent strings give 0), the prefix result is   *)
-(* exactly the IDs of the members that start with the pattern, and for     *)
-(* patterns of two or more bytes the substring result is exactly the IDs   *)
-(* of the members that contain it.  Two deliberate deviations of the code  *)
-(* are part of the model and stated as facts TLC confirms:                 *)
-(*   OneByteRange  subPathSearch answers `every node' (0..len-1) for a     *)
-(*                 pattern of one byte, and                                *)
-(*   Root2Loops    getChildren(0) contains node 0 itself,                  *)
-(* so the breadth-first walk of a one-byte substring query never ends      *)
-(* (KNOWN_FINDINGS F-XBW-SUBSTR-1BYTE-HANG).                               *)
+(* exactly the IDs of the members that start with the pattern, and the     *)
+(* substring result is exactly the IDs of the members that contain it.     *)
+(* CONSTANT Fixed = FALSE keeps the original subPathSearch checkable: it   *)
+(* answered `every node' (0..len-1) for a pattern of ONE byte              *)
+(* (OneByteRange), and because getChildren(0) contains node 0 itself       *)
+(* (Root2Loops, still a fact of the layout) the breadth-first walk of a    *)
+(* one-byte substring query never ended.  With the short cut restricted to *)
+(* the empty pattern (Fixed = TRUE, the one-character repair 84cd356 that  *)
+(* this model was used to validate before it was made) SubstrOK holds for  *)
+(* one-byte patterns as well.                                              *)
 (* The arrays are bound to the implementation by comparing them, for every *)
 (* member set TLC enumerates, with the image the real constructor saves    *)
 (* (lib/checks/csd.py: xbw_image_binding).                                 *)
 (***************************************************************************)
 EXTENDS Integers, Sequences, FiniteSets, TLC, SequencesExt, FiniteSetsExt, Json
 
-CONSTANTS Sigma, MaxLen, MaxN, Emit
+CONSTANTS Sigma, MaxLen, MaxN, Emit,
+          Fixed      \* TRUE: subPathSearch short-cuts only the empty pattern (after commit 84cd356); FALSE: patterns of length <= 1
 
 END == 255
 Strs == UNION {[1..k -> Sigma] : k \in 1..MaxLen}
@@ -108,7 +110,7 @@ SPSLoop(X, q, i, l, r) ==
                 k2 == RankSeq(X.al, s, r)
             IN  SPSLoop(X, q, i + 1, Sel1(X.last, X.n, z + k1) + 1, Sel1(X.last, X.n, z + k2))
 SubPathSearch(X, q) ==
-  IF Len(q) <= 1 THEN <<0, X.n - 1>>
+  IF (Fixed /\ Len(q) = 0) \/ (~Fixed /\ Len(q) <= 1) THEN <<0, X.n - 1>>
   ELSE IF q[1] = 0 THEN <<1, 0>>
   ELSE SPSLoop(X, q, 1, X.selA[q[1]], X.selA[q[1] + 1] - 1)
 
@@ -144,9 +146,9 @@ IdBijection(X) == /\ \A s \in S : IdOf(X, s) \in 1..n0 /\ Extract(S, X, IdOf(X, 
                 /\ \A i \in 1..n0 : Extract(S, X, i) \in S
 LocateOK(X)  == (p \notin S) => IdOf(X, p) = 0
 PrefixOK(X)  == LocatePrefix(S, X, p) = {IdOf(X, s) : s \in {t \in S : IsPrefixOf(p, t)}}
-SubstrOK(X)  == Len(p) >= 2 => LocateSubstr(S, X, p) = {IdOf(X, s) : s \in {t \in S : IsSubstrOf(p, t)}}
-\* the two deviations behind F-XBW-SUBSTR-1BYTE-HANG
-OneByteRange(X) == Len(p) = 1 => SubPathSearch(X, MapPat(S, p)) = <<0, X.n - 1>>
+SubstrOK(X)  == (Fixed \/ Len(p) >= 2) => LocateSubstr(S, X, p) = {IdOf(X, s) : s \in {t \in S : IsSubstrOf(p, t)}}
+\* the two facts behind the one-byte hang of the original code (Fixed = FALSE)
+OneByteRange(X) == (~Fixed /\ Len(p) = 1) => SubPathSearch(X, MapPat(S, p)) = <<0, X.n - 1>>
 Root2Loops(X)   == LET ch == GetChildren(X, 0) IN ch[1] = 0 /\ ch[2] >= 0
 \* structural facts the queries rely on
 Shape(X) == /\ X.al[1] = 1 /\ X.al[2] = 1                       \* the two roots come first
